@@ -33,12 +33,100 @@ pub fn kamino_rate(r: &kamino_mocks::state::MinimalReserve) -> Rat {
     Rat::new(BigInt::from(tl), BigInt::from(1u128 << 60)) / ru(r.mint_total_supply as u128)
 }
 
+/// What the monitors need from the venue's books for one pass-through bank.
+pub struct VenueView {
+    /// exact liquidity-per-collateral rate (1 on an empty reserve)
+    pub rate: Rat,
+    /// collateral the venue holds for the bank's obligation
+    pub collateral: u64,
+    pub decimals: u64,
+    pub empty: bool,
+    pub slot: u64,
+}
+pub fn solend_rate(r: &solend_mocks::state::SolendMinimalReserve) -> Rat {
+    let sup = r.collateral_mint_total_supply;
+    if sup == 0 {
+        return one();
+    }
+    let tl = venue::solend_total_liq_wads(r);
+    if tl == num_bigint::BigUint::from(0u8) {
+        return one();
+    }
+    Rat::new(BigInt::from(tl), BigInt::from(1_000_000_000_000_000_000u128)) / ru(sup as u128)
+}
+/// decode reserve + obligation bytes of a pass-through bank by its asset tag (3 Kamino, 5 Solend)
+pub fn venue_view(tag: u8, reserve: &[u8], obligation: &[u8]) -> Option<VenueView> {
+    match tag {
+        3 => {
+            let r = venue::read_reserve(reserve)?;
+            let o = venue::read_obligation(obligation)?;
+            Some(VenueView { rate: kamino_rate(&r), collateral: o.deposits[0].deposited_amount, decimals: r.mint_decimals, empty: r.mint_total_supply == 0, slot: r.slot })
+        }
+        5 => {
+            let r = venue::read_solend_reserve(reserve)?;
+            let c = venue::solend_obligation_amount(obligation)?;
+            Some(VenueView { rate: solend_rate(&r), collateral: c, decimals: r.liquidity_mint_decimals as u64, empty: { r.collateral_mint_total_supply } == 0, slot: r.last_update_slot })
+        }
+        _ => None,
+    }
+}
+pub fn reserve_slot(setup: OracleSetup, data: &[u8]) -> Option<u64> {
+    match setup {
+        OracleSetup::KaminoPythPush => venue::read_reserve(data).map(|r| r.slot),
+        OracleSetup::SolendPythPull => venue::read_solend_reserve(data).map(|r| r.last_update_slot),
+        _ => None,
+    }
+}
+
 impl Mon {
+    /// An instruction that passes the initial-health check outside a bracket must not owe its
+    /// acceptance to a venue reserve that was not refreshed in the current slot: with stale venue
+    /// collateral valued at nothing (what "treated as stale" means for an asset), the reference
+    /// health must not be certainly negative.
+    fn c20_stale_accept(&mut self, v: &IxView, info: &IxInfo) {
+        use crate::refm::{self, Req};
+        let (ak, ap, aq) = match info.accts.first() {
+            Some((k, Some(p), Some(q))) => (k, p, q),
+            _ => return,
+        };
+        if ap.account_flags & (ACCOUNT_IN_FLASHLOAN | ACCOUNT_IN_RECEIVERSHIP) != 0 {
+            return;
+        }
+        let pos = crate::mon_risk::positions(v, aq, true);
+        let slot = refm::REF_SLOT.load(std::sync::atomic::Ordering::Relaxed);
+        let mut stale = 0;
+        let mut fresh = 0;
+        for p in &pos {
+            if w(&p.balance.asset_shares) >= one() {
+                match p.oracles.get(1).and_then(|o| reserve_slot(p.bank.config.oracle_setup, o.data)) {
+                    Some(s) if s < slot => stale += 1,
+                    Some(_) => fresh += 1,
+                    None => {}
+                }
+            }
+        }
+        if stale + fresh == 0 {
+            return;
+        }
+        self.r.eval();
+        self.r.count(if stale > 0 { "C20.health_checks_passed_with_stale_venue_collateral" } else { "C20.health_checks_passed_with_fresh_venue_collateral" });
+        self.r.distinct(&("venue-health", info.kind.name(), stale.min(3), fresh.min(3), pos.len().min(9)));
+        if stale > 0 {
+            let h = refm::ref_health(&pos, Req::Initial, info.now);
+            if h.must_error.is_none() && h.health().certainly_neg() {
+                self.r.violate("C20", &format!("C20/{}/accepted-on-the-strength-of-a-stale-venue-reserve", info.kind.name()), format!("account {}: {} venue position(s) priced off a reserve not refreshed in slot {}; without them reference initial health is {} (+-{})", ak, stale, slot, show(&h.health().v), show(&h.health().e)));
+            }
+        }
+    }
+
     pub fn venue_on_ix(&mut self, wd: &World, v: &IxView, info: &IxInfo) {
         let _ = wd;
+        if matches!(info.kind, Kind::Borrow | Kind::Withdraw | Kind::KaminoWithdraw | Kind::SolendWithdraw) {
+            self.c20_stale_accept(v, info);
+        }
         let dep = match info.kind {
-            Kind::KaminoDeposit => true,
-            Kind::KaminoWithdraw => false,
+            Kind::KaminoDeposit | Kind::SolendDeposit => true,
+            Kind::KaminoWithdraw | Kind::SolendWithdraw => false,
             _ => return,
         };
         let name = info.kind.name();
@@ -56,15 +144,11 @@ impl Mon {
             if post { ev.post_of(k).map(|s| &s.data[..]) } else { ev.pre_of(k).map(|s| &s.data[..]) }
         }
         let rd = |k: &solana_sdk::pubkey::Pubkey, post: bool| rd_of(ev, k, post);
-        let (rp, rq) = match (rd(&rk, false).and_then(venue::read_reserve), rd(&rk, true).and_then(venue::read_reserve)) {
+        let tag = bp.config.asset_tag;
+        let (vp, vq) = match (rd(&rk, false).zip(rd(&ok, false)).and_then(|(r, o)| venue_view(tag, r, o)), rd(&rk, true).zip(rd(&ok, true)).and_then(|(r, o)| venue_view(tag, r, o))) {
             (Some(a), Some(b)) => (a, b),
             _ => return,
         };
-        let (op, oq) = match (rd(&ok, false).and_then(venue::read_obligation), rd(&ok, true).and_then(venue::read_obligation)) {
-            (Some(a), Some(b)) => (a, b),
-            _ => return,
-        };
-        let _ = rq;
         let user_ta = v.ev.pre.get(4).map(|s| s.key);
         let (tp, tq) = match user_ta.and_then(|k| Some((token_amount(rd(&k, false)?)?, token_amount(rd(&k, true)?)?))) {
             Some(x) => x,
@@ -76,13 +160,13 @@ impl Mon {
         };
         let asv = w(&bq.asset_share_value);
         let (sp, sq) = (pos_shares(ap, bk), pos_shares(aq, bk));
-        let rate = kamino_rate(&rp);
+        let rate = vp.rate.clone();
         let tol = ulp() * ri(16) * (&asv + one());
-        let (obl_p, obl_q) = (op.deposits[0].deposited_amount, oq.deposits[0].deposited_amount);
+        let (obl_p, obl_q) = (vp.collateral, vq.collateral);
         self.r.eval();
         self.r.count(&format!("C20.venue_ops/{}", name));
         let rate_class = if rate == one() { 0u8 } else if rate > one() { 1 } else { 2 };
-        self.r.distinct(&("venue", name, rate_class, rp.mint_decimals, rp.mint_total_supply == 0, arg_all(&v.ev.data, dep), venue::KAMINO_FAULT.load(std::sync::atomic::Ordering::Relaxed)));
+        self.r.distinct(&("venue", name, rate_class, vp.decimals, vp.empty, arg_all(&v.ev.data, dep), venue::KAMINO_FAULT.load(std::sync::atomic::Ordering::Relaxed)));
         if lvp != lvq {
             self.r.violate("C20", &format!("C20/{}/pass-through-vault-kept-or-lost-tokens", name), format!("bank {}: liquidity vault {} -> {}", bk, lvp, lvq));
         }
@@ -91,12 +175,12 @@ impl Mon {
             let d_obl = ri(obl_q as i128) - ri(obl_p as i128);
             let paid = ri(tp as i128) - ri(tq as i128);
             if d_pos > &d_obl + &tol {
-                self.r.violate("C20", "C20/KaminoDeposit/booked-more-collateral-than-venue-credited", format!("account {} bank {}: position +{} collateral, obligation +{}", ak, bk, show(&d_pos), show(&d_obl)));
+                self.r.violate("C20", &format!("C20/{}/booked-more-collateral-than-venue-credited", name), format!("account {} bank {}: position +{} collateral, obligation +{}", ak, bk, show(&d_pos), show(&d_obl)));
             }
             // what the position is now worth at the venue's exact rate never exceeds what was paid
             let worth = &d_pos * &rate;
             if worth > &paid + &tol * (&rate + one()) {
-                self.r.violate("C20", "C20/KaminoDeposit/position-credit-worth-more-than-paid", format!("account {} bank {}: paid {} tokens, credited collateral {} worth {} at rate {}", ak, bk, show(&paid), show(&d_pos), show(&worth), show(&rate)));
+                self.r.violate("C20", &format!("C20/{}/position-credit-worth-more-than-paid", name), format!("account {} bank {}: paid {} tokens, credited collateral {} worth {} at rate {}", ak, bk, show(&paid), show(&d_pos), show(&worth), show(&rate)));
             }
             if d_pos.is_positive() {
                 self.r.count("C20.venue_deposits_credited");
@@ -107,10 +191,10 @@ impl Mon {
             let d_obl = ri(obl_p as i128) - ri(obl_q as i128);
             let recv = ri(tq as i128) - ri(tp as i128);
             if recv > &d_pos * &rate + &tol * (&rate + one()) {
-                self.r.violate("C20", "C20/KaminoWithdraw/paid-more-than-position-decrease-is-worth", format!("account {} bank {}: received {} tokens for a position decrease of {} collateral worth {} at rate {}", ak, bk, show(&recv), show(&d_pos), show(&(&d_pos * &rate)), show(&rate)));
+                self.r.violate("C20", &format!("C20/{}/paid-more-than-position-decrease-is-worth", name), format!("account {} bank {}: received {} tokens for a position decrease of {} collateral worth {} at rate {}", ak, bk, show(&recv), show(&d_pos), show(&(&d_pos * &rate)), show(&rate)));
             }
             if d_obl > &d_pos + &tol {
-                self.r.violate("C20", "C20/KaminoWithdraw/venue-collateral-removed-exceeds-position-decrease", format!("account {} bank {}: obligation -{} collateral, position -{}", ak, bk, show(&d_obl), show(&d_pos)));
+                self.r.violate("C20", &format!("C20/{}/venue-collateral-removed-exceeds-position-decrease", name), format!("account {} bank {}: obligation -{} collateral, position -{}", ak, bk, show(&d_obl), show(&d_pos)));
             }
             if recv.is_positive() {
                 self.r.count("C20.venue_withdrawals_paid");
